@@ -543,34 +543,54 @@ End MachineProofs.
 (* ================================================================================================ *)
 (* 3. the replay model                                                                               *)
 
-Lemma predict_hi c st r : rq_hi r = true -> predict c st r = PExact (rq_ref r).
-Proof. intros H. unfold predict. rewrite H. reflexivity. Qed.
+Lemma predict_hi c st r : rq_hi r = true -> rq_fault r = false -> predict c st r = PExact (rq_ref r).
+Proof. intros H F. unfold predict, predict0. rewrite H, F. reflexivity. Qed.
 
-Lemma predict_uncached c st r : caches_on c (rq_api r) = false -> predict c st r = PExact (rq_ref r).
-Proof. intros H. unfold predict. rewrite H. destruct (rq_hi r); reflexivity. Qed.
+Lemma predict_uncached c st r : caches_on c (rq_api r) = false -> rq_fault r = false -> predict c st r = PExact (rq_ref r).
+Proof. intros H F. unfold predict, predict0. rewrite H, F. destruct (rq_hi r); reflexivity. Qed.
+
+Lemma predict_fault c st r : rq_hi r = true \/ caches_on c (rq_api r) = false -> rq_fault r = true ->
+  predict c st r = PExactOrError (rq_ref r).
+Proof.
+  intros H F. unfold predict. rewrite F. destruct H as [H | H]; rewrite H; [reflexivity |].
+  destruct (rq_hi r); reflexivity.
+Qed.
 
 (* every history of writes and requests: a HIGHER_CONSISTENCY request (and every request that passes
-   through no cache: ListUsers, or all flags off) is predicted to return the reference answer *)
+   through no cache: ListUsers, or all flags off) is predicted to return the reference answer; when
+   the datastore was made to fail during the request, the reference answer or an error -- never
+   another decision (in particular not a cached one) *)
 Theorem replay_hi_exact : forall c h st r p,
   In (r, p) (predictions c st h) ->
   rq_hi r = true \/ caches_on c (rq_api r) = false ->
-  p = PExact (rq_ref r).
+  p = if rq_fault r then PExactOrError (rq_ref r) else PExact (rq_ref r).
 Proof.
   induction h as [| o h IH]; intros st r p Hin Hr; simpl in Hin; [contradiction |].
   destruct o as [| r1].
   - eapply IH; eauto.
   - destruct Hin as [Heq | Hin].
-    + inversion Heq; subst. destruct Hr as [Hr | Hr]; [apply predict_hi | apply predict_uncached]; exact Hr.
+    + inversion Heq; subst. destruct (rq_fault r) eqn:F.
+      * apply predict_fault; assumption.
+      * destruct Hr as [Hr | Hr]; [apply predict_hi | apply predict_uncached]; assumption.
     + eapply IH; eauto.
 Qed.
 
-(* the verdict of the replay on such a request is 0 exactly when the observed answer is the reference *)
+(* the verdict of the replay on such a request is 0 exactly when the observed answer is the reference
+   (under a fault: the reference or an error) *)
 Lemma replay_verdict_hi c st r h :
-  rq_hi r = true ->
+  rq_hi r = true -> rq_fault r = false ->
   hd 0%N (replay c st (RReq r :: h)) = (if N.eqb (rq_ref r) (rq_obs r) then 0 else 2)%N.
 Proof.
-  intros H. simpl. rewrite (predict_hi c st r H). simpl. rewrite H. simpl.
+  intros H F. simpl. rewrite (predict_hi c st r H F). simpl. rewrite H. simpl.
   destruct (N.eqb (rq_ref r) (rq_obs r)); reflexivity.
+Qed.
+
+Lemma replay_verdict_hi_fault c st r h :
+  rq_hi r = true -> rq_fault r = true ->
+  hd 0%N (replay c st (RReq r :: h)) = (if N.eqb (rq_ref r) (rq_obs r) || is_error (rq_obs r) then 0 else 2)%N.
+Proof.
+  intros H F. simpl. rewrite (predict_fault c st r (or_introl H) F). simpl. rewrite H. simpl.
+  destruct (N.eqb (rq_ref r) (rq_obs r) || is_error (rq_obs r)); reflexivity.
 Qed.
 
 (* a HIGHER_CONSISTENCY Check refreshes the top-level entry of the default engine's query cache: the
@@ -578,9 +598,10 @@ Qed.
 Lemma replay_hi_refreshes c st r r' :
   rq_hi r = true -> top_tracked c r = true -> storable (rq_obs r) = true ->
   rq_hi r' = false -> top_tracked c r' = true -> r_ctrl c = false -> rq_key r' = rq_key r ->
+  rq_fault r' = false ->
   predict c (rstep c st (RReq r)) r' = PExact (rq_obs r).
 Proof.
-  intros H1 H2 H3 H4 H5 H6 H7. unfold predict, rstep. rewrite H1, H2, H3, H4, H5, H6. simpl.
+  intros H1 H2 H3 H4 H5 H6 H7 H8. unfold predict, predict0, rstep. rewrite H8. rewrite H1, H2, H3, H4, H5, H6. simpl.
   assert (Hc : caches_on c (rq_api r') = true).
   { unfold top_tracked in H5. apply andb_true_iff in H5. destruct H5 as [H5 _].
     apply andb_true_iff in H5. destruct H5 as [Hck Hq]. unfold caches_on. rewrite Hck, Hq. reflexivity. }
@@ -655,15 +676,19 @@ Proof. vm_compute. split; reflexivity. Qed.
 (* replay model: the three kinds of prediction occur *)
 Definition ex_rcfg : rcfg := mkR true true false false false false.
 Definition ex_hist : list rop :=
-  [RReq (mkReq 0 false 7 1 1 []);      (* cached Check: allowed, stored *)
+  [RReq (mkReq 0 false 7 1 1 [] false);      (* cached Check: allowed, stored *)
    RWrite;                          (* the tuple is deleted *)
-   RReq (mkReq 0 false 7 0 1 []);      (* cached Check: top-level hit, stale `allowed` is what the code returns *)
-   RReq (mkReq 0 false 8 0 1 []);      (* another cached Check after the write: sub-caches may be stale *)
-   RReq (mkReq 0 true 7 0 0 []);       (* HIGHER_CONSISTENCY: must be the reference answer; refreshes *)
-   RReq (mkReq 0 false 7 0 0 [])].     (* cached Check after the refresh: the refreshed entry *)
+   RReq (mkReq 0 false 7 0 1 [] false);      (* cached Check: top-level hit, stale `allowed` is what the code returns *)
+   RReq (mkReq 0 false 8 0 1 [] false);      (* another cached Check after the write: sub-caches may be stale *)
+   RReq (mkReq 0 true 7 0 0 [] false);       (* HIGHER_CONSISTENCY: must be the reference answer; refreshes *)
+   RReq (mkReq 0 false 7 0 0 [] false)].     (* cached Check after the refresh: the refreshed entry *)
 
 Lemma ex_replay :
   map snd (predictions ex_rcfg rs0 ex_hist) = [PExact 1; PExact 1; PAnyAnswer; PExact 0; PExact 0]%N /\
   replay ex_rcfg rs0 ex_hist = [0; 0; 0; 0; 0]%N /\
-  replay ex_rcfg rs0 [RReq (mkReq 0 false 7 1 1 []); RWrite; RReq (mkReq 0 true 7 0 1 [])] = [0; 2]%N.
+  replay ex_rcfg rs0 [RReq (mkReq 0 false 7 1 1 [] false); RWrite; RReq (mkReq 0 true 7 0 1 [] false)] = [0; 2]%N /\
+  (* HIGHER_CONSISTENCY under an injected datastore fault: an error (code 5) is fine, the current
+     answer is fine, the old cached decision is a violation *)
+  replay ex_rcfg rs0 [RReq (mkReq 0 false 7 1 1 [] false); RWrite; RReq (mkReq 0 true 7 0 5 [] true);
+                      RReq (mkReq 0 true 7 0 0 [] true); RReq (mkReq 0 true 7 0 1 [] true)] = [0; 0; 0; 2]%N.
 Proof. vm_compute. repeat split; reflexivity. Qed.
